@@ -114,8 +114,8 @@ def run(ctx):
     ks = pk.kernels()
     name = "c37m"
     so = ctx.pmap(_build, [(name, pk.module_source(ks), ctx.work)])[0]
-    ncfg = 60 if ctx.quick else 400
-    reps = 3 if ctx.quick else 20
+    ncfg = 60 if ctx.quick else 200
+    reps = 3 if ctx.quick else 8
     tasks = []
     for i, d in enumerate(ks):
         cfgs = hyp.draw_many(pk.config(d["body"]), ncfg + 1, ctx.seed, "c37", d["k"])[1:]
